@@ -116,6 +116,14 @@ func TestReplay(t *testing.T) {
 	if p == "" {
 		t.Skip("no replay requested")
 	}
+	if env, err := vstat.LoadReplay(p, nil); err == nil && env.Test == "TestC14Shapes" {
+		var sc shapeCase
+		if _, err := vstat.LoadReplay(p, &sc); err != nil {
+			t.Fatalf("cannot load %s: %v", p, err)
+		}
+		vstat.For(prop).Report(t, "TestReplay", sc, runShapeCase(sc))
+		return
+	}
 	var c Case
 	if _, err := vstat.LoadReplay(p, &c); err != nil {
 		t.Fatalf("cannot load %s: %v", p, err)
